@@ -902,9 +902,55 @@ def g_binds(d):
     return glist([f"({gtext(k)}, {gtext(v)})" for k, v in d.items()])
 
 
+def string_literal_lines(text):
+    """0-based numbers of the lines of the text that begin inside a string literal (our own tokenizer
+    pass, independent of processing._lines_inside_string_literals)."""
+    out = set()
+    try:
+        for tok in tokenize.generate_tokens(io.StringIO(text).readline):
+            if tok.type == tokenize.STRING or tokenize.tok_name[tok.type] in ("FSTRING_MIDDLE", "FSTRING_END"):
+                out.update(range(tok.start[0], tok.end[0]))
+    except (tokenize.TokenError, SyntaxError, IndentationError):
+        pass
+    return sorted(out)
+
+
+def generator_shares_call_parens(source, rng):
+    """Is the node at rng a generator expression that is the only argument of a call and written
+    with that call's parentheses (structural criterion on our own parse)?"""
+    try:
+        tree = ast.parse(source)
+    except SyntaxError:
+        return False
+    for node in ast.walk(tree):
+        if isinstance(node, ast.Call) and len(node.args) == 1 and not node.keywords \
+                and isinstance(node.args[0], ast.GeneratorExp) and node_span([node.args[0]], source) == tuple(rng):
+            f_end = node_span([node.func], source)[1]
+            return source[f_end:rng[0]].strip() == ""
+    return False
+
+
+def wrap_ranges(source, rec):
+    """Scheduled ranges whose replacement must get the call's parentheses back: shared parentheses,
+    and the replacement is not a generator expression itself."""
+    out = []
+    for (_, _, a, b, new) in rec["sched"]:
+        if new.strip() and generator_shares_call_parens(source, (a, b)):
+            try:
+                again = isinstance(ast.parse(new.strip(), mode="eval").body, ast.GeneratorExp)
+            except SyntaxError:
+                again = False
+            if not again:
+                out.append((a, b))
+    return out
+
+
 def g_subn_case(case, ms, rec) -> str:
     pat, repl, source, count = case
-    matches = glist([f"({g_range(rng)}, {g_binds(b)})" for (rng, b, _) in ms])
+    yielded = dict(rec["items"]) if not rec["error"] else {}
+    matches = glist([f"({g_range(rng)}, {g_binds(b)}, "
+                     f"{glist([i for i in string_literal_lines(yielded.get(rng, '')) if i > 0])})"
+                     for (rng, b, _) in ms])
     valid = glist([f"({gtext(t)}, {gbool(v)})" for t, v in rec["valid"].items()])
     if rec["error"]:
         items = "None"
@@ -913,8 +959,11 @@ def g_subn_case(case, ms, rec) -> str:
     sched = glist([f"({gz(g)}, {gz(t)}, {gz(s)}, {gz(e)}, {gtext(n)})" for (g, t, s, e, n) in rec["sched"]])
     il = glist([g_range(r) for r in regex_ignore_line_ranges(source)])
     n = rec["n"] if rec["n"] is not None else -1
-    return (f"(mkSubn {gtext(source)} {gtext(repl)} {gz(count)} {matches} {valid} {il} {items} {sched} "
-            f"{gtext(rec['cand'])} {gz(n)})")
+    wraps = glist([g_range(r) for r in wrap_ranges(source, rec)])
+    texts = {t for (_, _, a, b, t) in rec["sched"]} | {source[a:b] for (_, _, a, b, _) in rec["sched"]}
+    mlstr = glist([gtext(t) for t in sorted(texts) if string_literal_lines(t)])
+    return (f"(mkSubn {gtext(source)} {gtext(repl)} {gz(count)} {matches} {valid} {wraps} {mlstr} {il} {items} "
+            f"{sched} {gtext(rec['cand'])} {gz(n)})")
 
 
 HEADER = ("From Coq Require Import String List ZArith Uint63.\nImport ListNotations.\nOpen Scope Z_scope.\n"
